@@ -556,6 +556,16 @@ fn run_asnset(c: &AsnSets, obs: &mut Obs) -> CheckResult {
     ensure!(d == ma.difference(&mb).copied().collect::<BTreeSet<_>>(), "difference of {:?} and {:?} = {:?}", ma, mb, d);
     let s = to_set("symmetric difference", &mut sa.symmetric_difference(&sb))?;
     ensure!(s == ma.symmetric_difference(&mb).copied().collect::<BTreeSet<_>>(), "symmetric difference of {:?} and {:?} = {:?}", ma, mb, s);
+    // what the operations yield does not depend on how the iterator is driven: nth, skip,
+    // step_by, count, last, fold and size_hint agree with repeated next()
+    if c.a.len() + c.b.len() <= 40 {
+        crate::iterlaws::check("SmallAsnSet::iter()", "c13:iterator-laws", 64, || sa.iter())?;
+        crate::iterlaws::check("SmallAsnSet::union()", "c13:iterator-laws", 64, || sa.union(&sb))?;
+        crate::iterlaws::check("SmallAsnSet::intersection()", "c13:iterator-laws", 64, || sa.intersection(&sb))?;
+        crate::iterlaws::check("SmallAsnSet::difference()", "c13:iterator-laws", 64, || sa.difference(&sb))?;
+        crate::iterlaws::check("SmallAsnSet::symmetric_difference()", "c13:iterator-laws", 64, || sa.symmetric_difference(&sb))?;
+        crate::iterlaws::check("&SmallAsnSet::into_iter()", "c13:iterator-laws", 64, || (&sa).into_iter())?;
+    }
     // equality of sets built from permutations
     let mut rev = c.a.clone();
     rev.reverse();
